@@ -378,8 +378,13 @@ def gen_oracle_cases(ctx: Check, n_expand: int, n_rec: int, n_edit: int) -> list
 
 
 def run(ctx: Check) -> int:
+    import time
     from harness.interp_run import run_case
+    t0 = time.time()
+    tm: dict[str, float] = {}
+    ctx.extra["timings_s"] = tm
     ctx.prove(MODULE, REQUIRED)
+    tm["prove"] = round(time.time() - t0, 1)
     ctx.rule = ("fn stream: every call graph over 3 macros x 1 call slot and 2 macros x 2 slots (slot = nothing | plain "
                 "call | call nested in a Watch), plus random nested macro texts (containers to depth 3, nested "
                 "definitions, redefinitions, undefined callees); for every prefix of the definitions the table is built "
@@ -403,6 +408,7 @@ def run(ctx: Check) -> int:
         ctx.count("fn:answers", len(answers))
         ctx.count("fn:answers-nonempty-chain", sum(1 for x in answers if x not in ("[]",) and not x.startswith("err")))
         ctx.count("fn:impl-recursion-error", sum(1 for x in answers if x.startswith("err")))
+    tm["fn-stream"] = round(time.time() - t0 - sum(tm.values()), 1)
     # (2) interpreter level
     m3_cases = gen_m3_cases(ctx, ctx.n(120, 2500))
     cache: dict[int, tuple[list[str], list[str]]] = {}
@@ -416,9 +422,11 @@ def run(ctx: Check) -> int:
         return cache[id(c)]
     ctx.correspond("interp-m3-macros", "Interp", m3_cases, lambda c: both(c)[0], lambda c: both(c)[1],
                    nontrivial=lambda c, o: any("|macros=" in x and "|macros=|" not in x for x in o), impl_timeout=60)
+    tm["m3-stream"] = round(time.time() - t0 - sum(tm.values()), 1)
     # (3) oracle on the real engine
     cases = gen_oracle_cases(ctx, ctx.n(60, 1500), ctx.n(18, 180), ctx.n(24, 400))
     ctx.monitor(cases, oracle, impl_timeout=120)
+    tm["oracle"] = round(time.time() - t0 - sum(tm.values()), 1)
     ctx.assumptions = ["programs are the trees the real parser builds", "UOD commands CmdA/CmdB of the harness UOD",
                        "tick interval 0.125 s (dyadic), no Restart"]
     return ctx.finish(search=lambda c: c.monitor(gen_oracle_cases(c, c.n(40, 300), c.n(27, 90), c.n(12, 60)), oracle,
@@ -429,7 +437,7 @@ def replay(obj) -> int:
     c = obj.get("case", {})
     if isinstance(c, dict) and c.get("kind") in ("expand", "recursive", "edit"):
         from harness.macro_gen import pcode_of
-        c["items"] = [tuple(_tup(x)) for x in c["items"]]
+        c["items"] = [_tup(x) for x in c["items"]]
         print(pcode_of(c["items"]))
         f = oracle(c)
         print("oracle:", f)
@@ -448,6 +456,6 @@ def replay(obj) -> int:
 
 
 def _tup(x):
-    return tuple(_tup(y) for y in x) if isinstance(x, list) and x and isinstance(x[0], str) and x[0] in (
-        "mark", "wait", "cmd", "call", "macro", "watch", "alarm", "block", "blank") else (
-        [_tup(y) for y in x] if isinstance(x, list) else x)
+    if x and x[0] in ("macro", "watch", "alarm", "block"):
+        return (x[0], x[1], [_tup(y) for y in x[2]])
+    return tuple(x)
